@@ -6,7 +6,7 @@ runner._env_setup()
 import importlib
 prop, sub = sys.argv[1], sys.argv[2]
 mod = importlib.import_module(f"contracts.{prop.lower()}")
-for u in mod.UNITS:
+for u in runner.all_units(mod):
     for case in u.cases:
         if sub in u.unit_name(case):
             ex = P.Explorer(u.make_unit(case, runner.interp_factory), max_paths=u.max_paths)
